@@ -287,6 +287,7 @@ def run(ctx):
                 ctx.count("case-flip-of-a-capital-sigma")
             for a, b, nm in (("https://mashable-com.cdn.ampproject.org/c/s/mashable.com/2018/x", "https://mashable-com.cdn.ampproject.org:12345/c/s/mashable.com/2018/x", "port-any"),
                              ("http://bc.marfeelcache.com/amp/www.lemonde.fr/a", "http://bc.marfeelcache.com:65535/amp/www.lemonde.fr/a", "port-any"), ("http://r.example.net/out?url=http%3A%2F%2Fb.org%2Fp", "http://r.example.net:54321/out?url=http%3A%2F%2Fb.org%2Fp", "port-any"),
+                             ("https://www.youtube.com/redirect?q=lemonde.fr/a&v=1", "https://www.youtube.com:8080/redirect?q=lemonde.fr/a&v=1", "port-any"),
                              ("https://youtu.be/dQw4w9WgXcQ", "https://fr.youtu.be/dQw4w9WgXcQ", "lang-xx"), ("https://youtu.be/dQw4w9WgXcQ?t=1", "https://pt-br.youtu.be/dQw4w9WgXcQ?t=1", "lang-xx-yy")):
                 check_chain(ctx, fn, a, [(nm, b)], OPTSETS)
                 ctx.count("T-" + nm)
